@@ -295,6 +295,26 @@ pub fn index_packs(key: &RawKey, store: &Store) -> Result<Vec<IdxPack>, String> 
 /// Canonical abstraction of a whole store: random ids never enter it.
 /// (snapshots as (label, tree); packs as blob lists with status; index content as multiset)
 pub fn canon_store(key: &RawKey, store: &Store) -> Vec<String> {
+    canon_store_at(key, store, None)
+}
+
+fn age_bucket(time: &Option<String>, now_s: Option<i64>) -> &'static str {
+    let (Some(t), Some(now)) = (time, now_s) else { return "" };
+    let Ok(ts) = t.parse::<jiff::Timestamp>() else { return "@?" };
+    let age = now - ts.as_second();
+    // buckets separated by the keep-pack / keep-delete values the explorers use (90 min, 23 h)
+    if age < 90 * 60 {
+        "@young"
+    } else if age < 23 * 3600 {
+        "@mid"
+    } else {
+        "@old"
+    }
+}
+
+/// like `canon_store`, additionally tagging every indexed pack with the age bucket of its index
+/// time relative to `now_s` (seconds since epoch)
+pub fn canon_store_at(key: &RawKey, store: &Store, now_s: Option<i64>) -> Vec<String> {
     let mut out = Vec::new();
     let idx = index_packs(key, store).unwrap_or_default();
     for (tpe, id, data) in &store.files {
@@ -306,9 +326,9 @@ pub fn canon_store(key: &RawKey, store: &Store) -> Vec<String> {
                 let status = if listed.is_empty() {
                     "unindexed".to_string()
                 } else {
-                    let mut s: Vec<&str> = listed
+                    let mut s: Vec<String> = listed
                         .iter()
-                        .map(|p| if p.marked { "marked" } else { "indexed" })
+                        .map(|p| format!("{}{}", if p.marked { "marked" } else { "indexed" }, age_bucket(&p.time, now_s)))
                         .collect();
                     s.sort_unstable();
                     s.join("+")
@@ -433,4 +453,43 @@ pub fn independent_read(
         _ = out.insert(label, lt);
     }
     Ok(out)
+}
+
+/// Independent pack encoder (uncompressed entries): returns the pack bytes and its blobs.
+/// `nonce_seed` makes nonces distinct and deterministic.
+pub fn build_pack(key: &RawKey, blobs: &[(u8, Vec<u8>)], nonce_seed: u64) -> (Vec<u8>, Vec<HBlob>) {
+    let mut out = Vec::new();
+    let mut hb = Vec::new();
+    let mut hdr = Vec::new();
+    for (i, (tpe, plain)) in blobs.iter().enumerate() {
+        let mut nonce = [0u8; 16];
+        nonce[..8].copy_from_slice(&nonce_seed.to_le_bytes());
+        nonce[8..].copy_from_slice(&(i as u64 + 1).to_le_bytes());
+        let ct = key.seal(nonce, plain);
+        let id = sha256(plain);
+        hb.push(HBlob {
+            tpe: *tpe,
+            id: hex::encode(id),
+            offset: out.len() as u32,
+            length: ct.len() as u32,
+            uncompressed: None,
+        });
+        hdr.push(*tpe);
+        hdr.extend_from_slice(&(ct.len() as u32).to_le_bytes());
+        hdr.extend_from_slice(&id);
+        out.extend_from_slice(&ct);
+    }
+    let mut nonce = [0xeeu8; 16];
+    nonce[..8].copy_from_slice(&nonce_seed.to_le_bytes());
+    let h = key.seal(nonce, &hdr);
+    out.extend_from_slice(&h);
+    out.extend_from_slice(&(h.len() as u32).to_le_bytes());
+    (out, hb)
+}
+
+/// Independent encoder of an (uncompressed) JSON repo file
+pub fn seal_json(key: &RawKey, v: &Value, nonce_seed: u64) -> Vec<u8> {
+    let mut nonce = [0x77u8; 16];
+    nonce[..8].copy_from_slice(&nonce_seed.to_le_bytes());
+    key.seal(nonce, &serde_json::to_vec(v).expect("json"))
 }
